@@ -55,8 +55,9 @@ CLAIMS = {
         'failed_iff_error_path characterises the error paths; bodies never return an error reply through the success path (regular_reply_not_err). ' + TIE +
         'Monitor: snapshot before = after on every error reply of the implementation; exhaustive (command x stored type) wrong-type matrix.',
         note=NOTE, technique='Lean 4 generic theorem over arbitrary bodies + correspondence + implementation monitor', design='7 C08'),
- 'C09': dict(text='Lean theorems: NoEmpty and NodupKeys are preserved by the generic runner for arbitrary bodies (no_empty_collections); a key that becomes live was notified as a write target '
-        '(reads_create_nothing_regular). ' + TIE + 'Monitor: after every event DBSIZE = |KEYS *| = |complete SCAN|, EXISTS and TYPE agree, no stored empty collection, in every database.',
+ 'C09': dict(text='Lean theorems: no_empty_collections_all_histories - for EVERY history of events (open/close/GC, raw byte writes of any requests of all 139 commands incl. SORT STORE, '
+        'ZUNIONSTORE, scripts, EXEC blocks, blocking wake-ups and time-outs, both front-ends) every database dictionary has unique keys and stores no empty collection; lookup_never_empty; '
+        'one-step forms for arbitrary command bodies (no_empty_collections); a key that becomes live was notified as a write target (reads_create_nothing_regular). ' + TIE + 'Monitor: after every event DBSIZE = |KEYS *| = |complete SCAN|, EXISTS and TYPE agree, no stored empty collection, in every database.',
         note=NOTE, technique='Lean 4 invariant proof + correspondence + five-views monitor', design='7 C09'),
  'C10': dict(text='Lean theorems: deliveries_spec (exactly the channel subscribers then one pmessage per matching pattern subscription, nobody else), publish_spec (count = deliveries), '
         'subscribe/unsubscribe acknowledgements incl. idempotence and the single ack for an empty unsubscribe, channels_global. Pattern matching is glob_correct (C16). ' + TIE +
@@ -88,9 +89,11 @@ CLAIMS = {
  'C19': dict(text='Partial. The script bridge is part of the executable model: argument conversion, result conversion in both directions (ok/err tables, truncation at nil, float->int, true->1, false->nil), the '
         'no-script flag, numkeys validation, error wrapping per version, the script cache commands. The Lua host is external: a stand-in host runs the scripts and the harness records every redis.call / '
         'pcall with its Lua arguments and the value handed back to Lua, plus the final Lua value; the model re-executes each call with the runner used for direct commands (from_script = True), '
-        'checks it computes the same value the host received, and converts the final value. Proof obligations: bridge theorems (signatures, messages).',
+        'checks it computes the same value the host received, and converts the final value. Lean theorems: conversion_table_to_lua / conversion_table_to_reply (every row of the '
+        'documented table), roundtrip_reply (a reply handed to a script and returned comes back unchanged), luaToArg_spec (only strings and numbers), noscript_refused (exactly the 17 flagged '
+        'commands), eval_numkeys_validation, cache_agreement (LOAD/EXISTS/FLUSH/EVALSHA agree), hint_codec_roundtrip.',
         note=NOTE + 'lupa is not installed: harness/lupa_standin (a Lua-subset interpreter) is part of the trusted base; SHA-1 is external (passed as a hint); EVAL queued inside MULTI is not modelled.',
-        technique='executable Lean model of the bridge + trace correspondence on a stand-in Lua host', design='7 C19'),
+        technique='Lean 4 theorems on the script bridge (conversion tables, cache, gates) + trace correspondence on a stand-in Lua host', design='7 C19'),
  'C20': dict(text='Lean theorems: outage_no_effect (while disconnected every write raises ConnectionError and the state is unchanged), reconnect_restores, closed_socket_forgotten (after close and the clean-up run by the '
         'next command of any client the connection is in no subscriber set, has no watches and PUBLISH never delivers to it), gc_equivalent_to_close, cleanup_idempotent_for_others, '
         'other_exec_ignores_queue_regular. Tie: outage toggles, close and GC events inserted in multi-connection histories on the real sockets; redis-py level: every command raises ConnectionError '
